@@ -255,6 +255,18 @@ def check(pid, tier='quick', seed=0, shared=None, write_evidence=True, quiet=Fal
         for lv in lemma_viol:
             lv['verus'] = lemma_fail.get(lv['lemma'], [])[:3]
             violations.append(lv)
+        # modularity: a caller is verified against the callee's CONTRACT.  When a contract clause of a callee no longer
+        # holds, the panic-freedom of its callers was proved from a false premise: their nopanic obligations are undecided
+        # (the bounded stand-in then looks for a panicking input on the real code)
+        broken_callees = {}
+        for (fm, fnm, fvar, fprobe), ffl in fails_by_fn.items():
+            if fvar == 'main' and any(x['where'] == 'ensures' for x in ffl):
+                broken_callees[fnm.split('::')[-1]] = f'{fm}::{fnm}'
+        def _src_of(fn_):
+            try:
+                return open(os.path.join(REPO, fn_['file']), 'rb').read()[fn_['src_span'][0]:fn_['src_span'][1]].decode('utf-8', 'ignore')
+            except Exception:
+                return ''
         rl_fns = set()
         for rl in cm['rlimit']:
             hit = None
@@ -366,7 +378,13 @@ def check(pid, tier='quick', seed=0, shared=None, write_evidence=True, quiet=Fal
                     violations.append({'obligation': ob['id'], 'label': l, 'function': fq, 'world': wname,
                                        'file': fn['file'], 'src_span': fn['src_span'],
                                        'verus': [x['rendered'] for x in failed_labels[l]]})
-            if nopanic and not (ghost_fail and not body_fail):
+            relies = []
+            if nopanic and broken_callees and not body_fail:
+                src_ = _src_of(fn)
+                relies = sorted(v for k, v in broken_callees.items() if v != fq and re.search(r'\b' + re.escape(k) + r'\s*\(', src_))
+            if relies:
+                inconclusive.append(f'{wname}: panic-freedom of {fq} was proved from the contract of {", ".join(relies)}, a clause of which no longer holds: undecided')
+            elif nopanic and not (ghost_fail and not body_fail):
                 ob = {'id': f'{wname}:{fq}::nopanic', 'label': f'{fq}::nopanic', 'function': fq, 'discharged': not body_fail}
                 obligations.append(ob)
                 if body_fail:
